@@ -1610,7 +1610,8 @@ def replay(ctx, rec):
 
 # ------------------------------------------------------------------------------------------ targeted search when an obligation broke
 def _words_in(path, funcs):
-    """every upper-case word literal in the named functions of a source file (lenient: used only to aim the search)"""
+    """every ALL-UPPER-CASE word literal in the named functions of a source file: the words the front ends compare tokens with.
+    Used only as block names / statement keywords of well-formed NEXUS documents (an unknown word there is legal NEXUS)"""
     import ast
     out = set()
     try:
@@ -1620,7 +1621,7 @@ def _words_in(path, funcs):
     for n in ast.walk(tree):
         if isinstance(n, ast.FunctionDef) and n.name in funcs:
             for c in ast.walk(n):
-                if isinstance(c, ast.Constant) and isinstance(c.value, str) and re.fullmatch(r"[A-Za-z]{3,12}", c.value):
+                if isinstance(c, ast.Constant) and isinstance(c.value, str) and re.fullmatch(r"[A-Z]{3,12}", c.value):
                     out.add(c.value)
     return out
 
@@ -1666,22 +1667,17 @@ def search(ctx, broken):
             if len(session.pending) >= 400:
                 session.flush()
         session.flush()
-        # the source keywords: every keyword of the table as it is now, and as modelled, through get and read
-        kws = set(["file", "path", "url", "data", "stream", "string"])
-        try:
-            kws |= set(c13keys.tables(REPO)["targetKeywords"])
-        except Exception:
-            kws |= set(w.lower() for w in _words_in(os.path.join(src, "datamodel", "basemodel.py"),
-                                                    ("_extract_serialization_target_keyword", "_get_from", "_read_from")))
+        # the source keywords: the DOCUMENTED ones only (`file`, `path`, `data`, and the legacy `stream`, `string`; `url` needs a
+        # network), through get and read - every call made here is a valid call on the unchanged library, whatever the state of
+        # the regenerated tables (never a keyword guessed from a partially parsed source)
+        kws = ["file", "path", "data", "stream", "string"]
         text = "(a,(b,c));((a,b),c);"
         doc = {"schema": "newick", "text": text, "opts": {}}
         want = [tree_rec(t, TaxKey(None)) for t in dendropy.TreeList.get(data=text, schema="newick")]
         fd, path = tempfile.mkstemp(dir=tmpdir, suffix=".txt")
         with os.fdopen(fd, "w") as f:
             f.write(text)
-        for kw in sorted(kws):
-            if kw == "url":
-                continue
+        for kw in kws:
             val = {"file": lambda: io.StringIO(text), "stream": lambda: io.StringIO(text), "path": lambda: path}.get(kw, lambda: text)
             for via_read in (False, True):
                 case = Case(ctx, doc, "fresh")
